@@ -94,6 +94,18 @@ func applyC14Edit(g *rng.R, w0 *world.World, cfg world.Cfg, kind int) (*world.Wo
 								}
 							}
 							rule.Peers = append(rule.Peers, world.NPPeer{IPBlock: ib})
+							if !ing { // an egress rule that reaches addresses must not carry named ports (documented fatal error)
+								kept := []world.NPPort{}
+								for _, pt := range rule.Ports {
+									if pt.Name == "" {
+										kept = append(kept, pt)
+									}
+								}
+								if len(kept) == 0 && len(rule.Ports) > 0 {
+									kept = []world.NPPort{{Port: 80}}
+								}
+								rule.Ports = kept
+							}
 						}
 					}
 					prepend := g.P(0.5) // rules are unordered: the new rule may come first
